@@ -237,7 +237,7 @@ def extract_steps(case, res):
     of a job at all (reported as a correspondence failure, not a harness error)"""
     pop = case["pop"]
     metas = {j: _parse_meta(m) for j, m in res["metas"].items()}
-    st, group, steps, closes = {}, {}, [], []
+    st, group, steps, closes, zombies = {}, {}, [], [], []
     n = 0
     for e in res["log"]:
         k = e[0]
@@ -256,6 +256,12 @@ def extract_steps(case, res):
                 st[j] = "holding"
         elif k == "start":
             j = e[1]
+            if st.get(j) == "cancelled":
+                # thread backend: the pool starts a call whose evaluation was cancelled by close() earlier
+                # (with a timeout set the executor future is shielded and cannot be withdrawn); it is no
+                # longer an evaluation of the evaluator — its resources were returned at the cancellation
+                zombies.append(j)
+                continue
             if st.get(j) != "holding" and not (pop == 0 and st.get(j) == "created"):
                 return None, f"the run-function of job {j} starts in phase {st.get(j)}"
             steps.append({"op": "start", "j": j, "recv": e[2]})
@@ -293,7 +299,7 @@ def extract_steps(case, res):
             steps.append({"op": "closed", "queue": e[1]})
     if group:
         return None, f"incomplete pops {group}"
-    return (steps, closes), None
+    return (steps, closes, zombies), None
 
 
 def lean_requests(case, steps, pre=False):
@@ -347,6 +353,8 @@ def oracle(case, res):
     for e in log:
         if e[0] == "submit":
             n += e[1]
+        elif e[0] in ("start", "end") and e[1] in closed_over:
+            continue  # a call of an evaluation that close() had already ended (see extract_steps)
         elif e[0] == "start":
             j, recv = e[1], e[2]
             recv_of[j] = recv
@@ -622,7 +630,9 @@ def check_case(ck, d, case, vt, from_corpus=False):
         if ex is None:
             mm = {"what": "trace cannot be replayed: " + why}
         else:
-            steps, closes = ex
+            steps, closes, zombies = ex
+            if zombies:
+                ck.count(f"call-started-by-the-pool-after-its-cancellation:{case['backend']}", len(zombies))
             reps = d.ask_all(lean_requests(case, steps))
             mm = compare(case, res, steps, reps)
             for e in steps:
